@@ -183,6 +183,8 @@ PARSER_TABLES = Ob("C19-K1", "R-TABLE", "autoSql parser: declaration list not ca
 EMPTY_AND_TOOL_REFUSALS = Ob("C13-G10", "R-ERR", "writer refuses a source that starts no chromosome; converters never return Ok(()) after creating the output", RF.ob_empty_and_tool_refusals, floor=5)
 from ..obs import mirobs as MO
 MIR_RESULTS = Ob("C14-E3", "R-ERR", "type-resolved (MIR): no Result produced by a call in non-test workspace code is dropped or collapsed without propagation", MO.ob_results_used, floor=1)
+from ..obs import queuecap as QC
+TRY_SEND_CAP = Ob("C13-Q1", "R-BOUND", "a bounded channel fed with try_send(..).unwrap() (one message per finished chromosome) is created with one slot per chromosome", QC.ob_try_send_capacity, floor=1)
 MIR_DIVISION = Ob("C13-V2", "R-BOUND", "type-resolved (MIR): integer `/` and `%` on the write and merge paths divide by a non-zero constant or are confirmed sites", MO.ob_division, floor=5)
 MIR_COORD_ARITH = Ob("C13-V1", "R-BOUND", "type-resolved (MIR): overflow-checked <=32-bit Add/Mul/Shl on the write and merge paths are each bounded", MO.ob_coordinate_arithmetic, floor=5)
 MIR_HASH_ITER = Ob("C11-D4", "R-DISC", "type-resolved (MIR): no HashMap/HashSet iteration in library code except sorted-afterwards sites", MO.ob_hash_iteration, floor=1)
